@@ -38,6 +38,7 @@ def run_unit(unit, tier="quick", prefix=(), split=0):
     def run(c):
         base_axioms(c)
         return unit.run(c)
+    refuted = set()
     try:
         first = not prefix
         for res in explore(run, unit.fmodel, prefix=prefix, max_paths=unit.max_paths, split=split, pending_out=out["pending"]):
@@ -52,7 +53,13 @@ def run_unit(unit, tier="quick", prefix=(), split=0):
                 first = False
             SYMCACHE.clear()
             for ob in res.obligations:
-                discharge(ob, timeout)
+                if ob.name in refuted and not z3.is_true(ob.goal):
+                    # already refuted (with a counter-model) on another path: do not spend solver time on more models
+                    ob.verdict, ob.backend, ob.secs, ob.model = "also-failing", "skipped", 0.0, None
+                else:
+                    discharge(ob, timeout)
+                    if ob.verdict == "sat":
+                        refuted.add(ob.name)
                 out["solver_s"] += ob.secs
                 rec = {"name": ob.name, "verdict": ob.verdict, "backend": ob.backend, "secs": round(ob.secs, 4),
                        "model": ob.model, "path": "".join("T" if d else "F" for d in (ob.path or [])),
